@@ -90,7 +90,7 @@ def run(chk):
                 'arguments of 5/8/12 bits in default/big/little order, both reverse options) and checks GroupsInOrder and '
                 'ReverseTouchesOnlyItsGroup; for each layout an ISA definition is generated, the statement is assembled at two '
                 'different addresses in two different surrounding programs, and its bytes must equal the layout bytes. '
-                '(c) seeded random field lists with widths 1..64 and arbitrary values (boundary-biased) are packed by the real code and each record is validated by spec/Trace_Pack.tla, which works on bit strings only (no 32-bit limit). Non-trivial = distinct field list / layout with at least two fields.')
+                '(c) seeded random field lists with widths 1..64 and arbitrary values (boundary-biased) are packed by the real code and each record is validated by spec/Trace_Pack.tla, which works on bit strings only (no 32-bit limit). (d) with the pack hook on, every distinct instruction encoding of the repository programs (real ISAs: 8085-like, SAP-1, KENBAK-1, Minimal 64/64x4/CPU with all their operand types) is validated the same way. Non-trivial = distinct field list / layout with at least two fields.')
     chk.assumptions = ['little-endian for a width that is not a multiple of 8: bytes least-significant first, the last byte contributing its low (w mod 8) bits',
                        'within the prefix group the first operand code is nearest to the opcode (order of the pinned commit)',
                        'each abstract operand is realised in rotation by register, enumeration, numeric_enumeration, numeric_bytecode, numeric, indirect_numeric, deferred_numeric, address, indirect_register with offset; relative_address and indexed registers are exercised by C12/C13']
@@ -135,4 +135,6 @@ def run(chk):
     chk.sample({'instance': 'encode', 'layout': e['l'], 'statement': stmt, 'operand_types': kinds, 'bytes': e['b']})
     # (c) widths up to 64 bits and arbitrary 64-bit values, validated on bit strings
     widepart.run_wide(chk, 4000 if quick else 80000)
+    # (d) every instruction of the repository programs: recorded parts and bytes against the layout
+    widepart.run_corpus_pack(chk)
     chk.exhaustive = not quick
